@@ -1,0 +1,41 @@
+// ---------------------------------------------------------------------------
+// Verification hooks. Compiled only with `--cfg fpdec_verif` (and feature
+// "std"); without that flag this module and every hook site vanish.
+// ---------------------------------------------------------------------------
+
+//! Recorder for verification hook events (thread-local buffer).
+
+use std::cell::RefCell;
+
+use crate::RoundingMode;
+
+/// One hook event.
+#[derive(Clone, Debug, PartialEq, Eq)]
+pub enum Event {
+    /// The calling thread's default rounding mode has been written.
+    ModeSet(RoundingMode),
+    /// The calling thread's default rounding mode has been read.
+    ModeRead(RoundingMode),
+    /// The parser is about to consume `req` bytes of `rem` remaining bytes.
+    ParserStep {
+        /// number of bytes requested
+        req: usize,
+        /// number of bytes remaining in the input
+        rem: usize,
+    },
+    /// A branch tag (coverage only).
+    Path(&'static str),
+}
+
+thread_local!(static BUF: RefCell<Vec<Event>> = const { RefCell::new(Vec::new()) });
+
+/// Record an event in the calling thread's buffer.
+pub fn emit(e: Event) {
+    BUF.with(|b| b.borrow_mut().push(e));
+}
+
+/// Take all events recorded by the calling thread.
+#[must_use]
+pub fn drain() -> Vec<Event> {
+    BUF.with(|b| core::mem::take(&mut *b.borrow_mut()))
+}
